@@ -115,6 +115,33 @@ def gen_op(rnd, s, u):
         if r < 0.9:
             return ['append', ['w', s['T'][b]['owner']], a]
         return ['floordiv', ['t', b], [a], True]
+    # attempts that would close a dependency cycle (through either API side) on link-dense graphs: all must be rejected
+    if rnd.random() < 0.05:
+        def closure(a, kind):
+            seen, todo = [], [a]
+            while todo:
+                z = todo.pop()
+                for q in s['T'][z][kind]:
+                    if q not in seen and q in s['T']:
+                        seen.append(q)
+                        todo.append(q)
+            return seen
+        cands = [k for k in T if s['T'][k]['succs']]
+        if cands:
+            a = rnd.choice(cands)
+            down = closure(a, 'succs')
+            if down:
+                z = rnd.choice(down)
+                r = rnd.random()
+                if r < 0.3:
+                    return ['rshift', z, [a], True]            # z >> a  although a ->* z
+                if r < 0.5:
+                    return ['succs.append', z, a]
+                if r < 0.7:
+                    return ['lshift', a, [z], True]            # a << z
+                if r < 0.85:
+                    return ['preds.append', a, z]
+                return ['succs=', z, list(s['T'][z]['succs']) + [a], 'list']
     c = rnd.randrange(100)
     if c < 9:
         return ['parent=', t, x if rnd.random() < 0.85 else None]
@@ -411,6 +438,13 @@ def run_history(prop, spec, ops, acc, gen=None, tail=True, judge_from=0, layer='
             else:
                 prefix.append(['append', ['w', rnd.choice(list(s_after['R']))], lab])
             placed.append(lab)
+        if rnd.random() < 0.5:
+            # link builder: a random DAG over the labels (lower label -> higher label), diamonds included
+            for _ in range(rnd.randint(2, 8)):
+                a, b_ = sorted(rnd.sample(range(len(labs)), 2)) if len(labs) >= 2 else (0, 0)
+                if a != b_:
+                    prefix.append([rnd.choice(['rshift', 'lshift']), labs[a] if rnd.random() < 0.5 else labs[b_], [labs[b_]], True]
+                                  if False else (['rshift', labs[a], [labs[b_]], True] if rnd.random() < 0.5 else ['lshift', labs[b_], [labs[a]], True]))
         n += len(prefix)
     for step in range(n):
         s0 = s_after
